@@ -116,6 +116,9 @@ class H11Protocol:
         elif isinstance(event, Closed):
             if self.stream is not None:
                 await self._close_stream()
+            # The reader may be parked on a pipelined request, which is
+            # not going to be served
+            await self.can_read.set()
 
     async def stream_send(self, event: StreamEvent) -> None:
         if isinstance(event, Response):
